@@ -19,7 +19,7 @@ DT_NUM = {"b": 0, "i": 1, "f": 2, "c": 3}
 BIN_OPS = ["add", "sub", "mul", "truediv", "floordiv", "pow", "lt", "le", "gt", "ge", "eq", "ne"]
 CONTRACTIONS = ["sum", "prod", "all", "any", "integrate", "mean", "var", "std"]
 # operations whose float evaluation is exact on the generated inputs (small integers / dyadic volumes): class E
-E_OPS = {"unite", "flexible_addsub", "mvdot", "ms_all", "ms_any", "msize", "mflex", "sum", "prod", "all", "any", "integrate", "vdot", "s_vdot", "s_sum", "s_prod", "s_all", "s_any",
+E_OPS = {"clip", "mclip", "unite", "flexible_addsub", "mvdot", "ms_all", "ms_any", "msize", "mflex", "sum", "prod", "all", "any", "integrate", "vdot", "s_vdot", "s_sum", "s_prod", "s_all", "s_any",
          "s_integrate", "total_volume", "scalar_weight", "un", "bin", "bins", "scale", "norm",
          "mbin", "mbins", "mun", "ms_vdot", "ms_sum", "mnorm", "weight"}
 TOL = 1e-9
@@ -164,6 +164,12 @@ def model_case(case, built):
             del o["c"]
         if "ord" in o:
             o["ord"] = str(o["ord"])
+        for b, d in (("lo", "ldt"), ("hi", "hdt")):   # clip bounds: ["p/q", kind] | None
+            if b in o:
+                if o[b] is None:
+                    del o[b]
+                else:
+                    o[b], o[d] = o[b][0], DT_NUM[o[b][1]]
         ops.append(o)
     return {"fields": flds, "mfields": mfs, "ops": ops}
 
@@ -231,6 +237,10 @@ def py_scalar(c):
     return complex(float(re), float(im))
 
 
+def py_bound(b):
+    return None if b is None else py_scalar([b[0], "0", b[1]])
+
+
 def py_ord(o):
     return np.inf if str(o) == "inf" else int(o)
 
@@ -262,6 +272,8 @@ def call_impl(built, op):
             return a.s_any(), a
         if name == "msize":
             return a.size, a
+        if name == "mclip":
+            return a.clip(py_bound(op.get("lo")), py_bound(op.get("hi"))), a
         if name == "mflex":
             b = built.mfields[op["b"]]
             return (a.unite(b) if op.get("unite") else a.flexible_addsub(b, bool(op.get("neg")))), None
@@ -296,6 +308,8 @@ def call_impl(built, op):
         return (fn(c, f) if op.get("rev") else fn(f, c)), f
     if name == "scale":
         return f.scale(py_scalar(op["c"])), f
+    if name == "clip":
+        return f.clip(py_bound(op.get("lo")), py_bound(op.get("hi"))), f
     if name == "unite":
         return f.unite(built.fields[op["g"]]), f
     if name == "flexible_addsub":
